@@ -1,0 +1,199 @@
+//! Verification hook H1 (`--cfg actix_net_verif` only): the real `Accept` driven one loop
+//! iteration at a time on the caller's thread.
+//!
+//! `step()` is one body of `poll_with`'s loop using the real `poll.poll`, `handle_waker`,
+//! `accept` and `process_timeout`. Blocking model: the real loop blocks in `poll(self.timeout)`;
+//! the stepped driver polls with a zero timeout and, when no event is pending, continues only if
+//! `self.timeout` is `Some(d)` and at least `d` has passed on the (Tokio, possibly paused) clock
+//! since the loop last entered `poll`; otherwise it reports `Blocked` and changes nothing.
+
+#![allow(missing_docs, missing_debug_implementations)]
+
+use std::os::unix::io::RawFd;
+
+use tokio::sync::mpsc::{unbounded_channel, UnboundedReceiver};
+
+use super::*;
+use crate::{
+    server::ServerCommand,
+    worker::verif::{HandleAccept, WakerQueueV},
+};
+
+pub enum Listener {
+    Tcp(std::net::TcpListener),
+    Uds(std::os::unix::net::UnixListener),
+}
+
+#[derive(Debug, Clone, Copy, PartialEq, Eq)]
+pub enum Step {
+    /// an iteration ran; `events` readiness events were handled
+    Ran { events: usize },
+    /// the real thread would be blocked in `poll`
+    Blocked,
+    /// the loop has returned (Stop was handled); the accept thread is gone
+    Exited,
+}
+
+/// Commands the accept loop sends to the server.
+#[derive(Debug, Clone, Copy, PartialEq, Eq)]
+pub enum Cmd {
+    WorkerFaulted(usize),
+    Other,
+}
+
+pub struct Stepped {
+    accept: Accept,
+    sockets: Box<[ServerSocketInfo]>,
+    events: mio::Events,
+    cmd_rx: UnboundedReceiver<ServerCommand>,
+    entered_poll: Instant,
+    exited: bool,
+}
+
+/// Step 1 of construction: the poll instance and its waker queue (workers need the queue).
+pub struct Prepared {
+    poll: Poll,
+    waker_queue: WakerQueue,
+}
+
+pub fn prepare() -> io::Result<Prepared> {
+    let poll = Poll::new()?;
+    let waker_queue = WakerQueue::new(poll.registry())?;
+    Ok(Prepared { poll, waker_queue })
+}
+
+impl Prepared {
+    pub fn waker_queue(&self) -> WakerQueueV {
+        WakerQueueV(self.waker_queue.clone())
+    }
+
+    /// Step 2: `Accept::new_with_sockets` with listeners whose tokens are their indices, as
+    /// `ServerBuilder` assigns them.
+    pub fn build(self, listeners: Vec<Listener>, workers: Vec<HandleAccept>) -> io::Result<Stepped> {
+        let (cmd_tx, cmd_rx) = unbounded_channel();
+        let sockets = listeners
+            .into_iter()
+            .enumerate()
+            .map(|(token, l)| {
+                let lst = match l {
+                    Listener::Tcp(l) => {
+                        l.set_nonblocking(true)?;
+                        MioListener::from(l)
+                    }
+                    Listener::Uds(l) => {
+                        l.set_nonblocking(true)?;
+                        MioListener::from(l)
+                    }
+                };
+                Ok((token, lst))
+            })
+            .collect::<io::Result<Vec<_>>>()?;
+        let (accept, sockets) = Accept::new_with_sockets(
+            self.poll,
+            self.waker_queue,
+            sockets,
+            workers.into_iter().map(|w| w.0).collect(),
+            ServerHandle::new(cmd_tx),
+        )?;
+        Ok(Stepped {
+            accept,
+            sockets,
+            events: mio::Events::with_capacity(256),
+            cmd_rx,
+            entered_poll: Instant::now(),
+            exited: false,
+        })
+    }
+}
+
+impl Stepped {
+    pub fn step(&mut self) -> Step {
+        if self.exited {
+            return Step::Exited;
+        }
+        crate::verif::reset_spin();
+
+        if let Err(err) = self.accept.poll.poll(&mut self.events, Some(Duration::ZERO)) {
+            match err.kind() {
+                io::ErrorKind::Interrupted => {}
+                _ => panic!("Poll error: {}", err),
+            }
+        }
+
+        if self.events.is_empty() {
+            match self.accept.timeout {
+                Some(d) if self.entered_poll.elapsed() >= d => {}
+                _ => return Step::Blocked,
+            }
+        }
+
+        let mut n = 0;
+        for event in self.events.iter() {
+            n += 1;
+            let token = event.token();
+            match token {
+                WAKER_TOKEN => {
+                    let exit = self.accept.handle_waker(&mut self.sockets);
+                    if exit {
+                        self.exited = true;
+                        return Step::Exited;
+                    }
+                }
+                _ => {
+                    let token = usize::from(token);
+                    self.accept.accept(&mut self.sockets, token);
+                }
+            }
+        }
+
+        self.accept.process_timeout(&mut self.sockets);
+        self.entered_poll = Instant::now();
+        Step::Ran { events: n }
+    }
+
+    /// commands sent to the server since the last call
+    pub fn drain_cmds(&mut self) -> Vec<Cmd> {
+        let mut out = vec![];
+        while let Ok(c) = self.cmd_rx.try_recv() {
+            out.push(match c {
+                ServerCommand::WorkerFaulted(idx) => Cmd::WorkerFaulted(idx),
+                _ => Cmd::Other,
+            });
+        }
+        out
+    }
+
+    // read-only inspectors: diagnostics and quiescence detection only
+
+    pub fn paused(&self) -> bool {
+        self.accept.paused
+    }
+
+    pub fn next(&self) -> usize {
+        self.accept.next
+    }
+
+    pub fn handle_idxs(&self) -> Vec<usize> {
+        self.accept.handles.iter().map(|h| h.idx()).collect()
+    }
+
+    pub fn avail_bit(&self, idx: usize) -> bool {
+        self.accept.avail.get_available(idx)
+    }
+
+    pub fn poll_timeout(&self) -> Option<Duration> {
+        self.accept.timeout
+    }
+
+    pub fn socket_backoff(&self, token: usize) -> bool {
+        self.sockets[token].timeout.is_some()
+    }
+
+    pub fn listener_fd(&self, token: usize) -> RawFd {
+        self.sockets[token].lst.verif_raw_fd()
+    }
+
+    pub fn waker_queue_len(&self) -> usize {
+        self.accept.waker_queue.guard().len()
+    }
+}
